@@ -3,6 +3,9 @@
 
   Store level (ids, `Store::make`, `ReManager::make/complement`, all histories): Props/C07Store.lean.
   Tree level (terms built by the public constructors, all id assignments): Props/C07Tree.lean.
+  The two joined by a theorem — a stateful, id-allocating model of `ReManager` (table + derivative
+  cache) refines the tree model: Props/C07Refine.lean.
 -/
 import SmtModel.Props.C07Store
 import SmtModel.Props.C07Tree
+import SmtModel.Props.C07Refine
